@@ -62,11 +62,21 @@ def make_curve_set(rng, mix, n_curves=None, n_points=None, ctype="weight", t_cen
     return pv.DiffusionCurveSet(name="synthetic", diffusion_curves=curves)
 
 
-def make_extreme_program(rng, T0, horizon):
+def make_extreme_program(rng, T0, horizon, mix=None, last_time=None, aim_pole=False):
     """programmes that leave the physical range within the run: down to a few kelvin, overflowing, or undefined"""
     h = max(horizon, 1e-9)
     T0 = float(T0)
     u = rng.random()
+    if mix is not None and last_time and (aim_pole or rng.random() < 0.3):
+        # aimed at the pole of an Antoine equation, log10 Psat = a + b / (T + c): a few kelvin below T = -c the vapour pressure of
+        # that component - and with it the flux and the heat of evaporation - runs through the top of the floating-point range;
+        # the LAST REPORTED state is placed there
+        comp = rng.choice([mix.first_component, mix.second_component])
+        k = comp.vapour_pressure_constants
+        if str(k.type).lower().endswith("antoine") and float(k.b) < 0 and -float(k.c) > 20.0:
+            target = float(k.b) / (rng.uniform(296.0, 311.0) - float(k.a)) - float(k.c)
+            if 1.0 < target < T0:
+                return pv.TemperatureProgram(coefficients=[T0, -(T0 - target) / last_time], type="polynomial")
     if u < 0.4:                         # linear, reaching 1..30 K at the end
         return pv.TemperatureProgram(coefficients=[T0, -(T0 - gen.logu(rng, 0.3, 30.0)) / h], type="polynomial")
     if u < 0.7:                         # exponential that overflows to +inf before the end
@@ -206,8 +216,11 @@ def prepare(rng, sc):
         else:
             sc["dt"] = sc["removal"] * sc["m0"] / (tot * sc["A"])
     if sc.get("want_prog") and sc["prog"] is None:
-        mk = make_extreme_program if sc.get("extreme_prog") else make_program
-        sc["prog"] = mk(rng, sc["T0"], sc["dt"] * sc["N"])
+        if sc.get("extreme_prog"):
+            sc["prog"] = make_extreme_program(rng, sc["T0"], sc["dt"] * sc["N"], mix=sc["mix"], last_time=sc["dt"] * (sc["N"] - 1),
+                                              aim_pole=bool(sc.get("aim_pole")))
+        else:
+            sc["prog"] = make_program(rng, sc["T0"], sc["dt"] * sc["N"])
     return perv
 
 
@@ -405,7 +418,8 @@ def record_job(job):
             rem = gen.logu(rng, 0.1, 10.0)
         if opts.get("overcool"):
             rem = rng.uniform(0.25, 0.97)          # one step removes a large part of the feed: self-cooling below 0 K
-        sc = scenario(rng, kind=kind, removal=rem, prog_p=0.0 if opts.get("overcool") else 0.4)
+        sc = scenario(rng, kind=kind, removal=rem, prog_p=0.0 if opts.get("overcool") else 0.4,
+                      mode=rng.choice(["vac", "press"]) if opts.get("pole") else None)
         if opts.get("overcool"):
             sc["N"] = 2                            # the over-cooled state is the last one reported
         if opts.get("extreme"):
@@ -417,6 +431,14 @@ def record_job(job):
             if sc["kind"].startswith("ideal") and rng.random() < 0.15:
                 for e in sc["membrane"].ideal_experiments.experiments:      # an impermeable membrane: both fluxes exactly 0
                     e.permeance = pv.Permeance(0.0)
+            elif sc["kind"].startswith("ideal") and (opts.get("pole") or rng.random() < 0.5):
+                for e in sc["membrane"].ideal_experiments.experiments:      # permeances that do not collapse at low temperature
+                    e.activation_energy = rng.choice([0.0, -rng.uniform(0.0, 6000.0)])
+                if opts.get("pole"):
+                    sc["N"] = rng.choice([2, 2, 3])
+                if sc["kind"] == "ideal_noniso" and sc["N"] >= 2 and (opts.get("pole") or rng.random() < 0.7):
+                    # ... and a programme whose last reported state sits where a vapour pressure runs through the top of the float range
+                    sc["want_prog"], sc["extreme_prog"], sc["aim_pole"] = True, True, True
             if sc["mode"] == "temp":
                 sc["Tperm"] = float(sc["T0"]) + rng.uniform(-10.0, 30.0)
             elif sc["mode"] == "press":
